@@ -18,7 +18,7 @@ from __future__ import annotations
 import ast
 
 from ..effects import StateEffects
-from ..model import Program, call_name, is_self_attr, norm
+from ..model import Program, call_name, is_self_attr, norm, expand_locals, single_assignment_locals
 from ..poly import Rat, sqrt_of
 from ..report import AnalysisError
 from ..symexec import SymEnv
@@ -156,7 +156,7 @@ def rule_r3(rep, program: Program):
     # Euclidean: pos' = pos + dt*metric.inv@mom ; blocks (dt*metric.inv, I)
     k = program.cls("ConstrainedEuclideanMetricSystem")
     f = k.methods.get("dh2_flow_dmom")
-    ret = [n for n in ast.walk(f.node) if isinstance(n, ast.Return)][0].value
+    ret = expand_locals([n for n in ast.walk(f.node) if isinstance(n, ast.Return)][0].value, single_assignment_locals(f.node))
     if not (isinstance(ret, ast.Tuple) and len(ret.elts) == 2):
         raise AnalysisError(f"{f.qualname}: does not return a pair")
     dt = f.params[2]
@@ -195,6 +195,10 @@ def rule_r3(rep, program: Program):
     body = g.body_without_docstring()
     ge.run(body[:-1])
     ret = body[-1].value
+    # matrix-valued temporaries (constructor calls) named before the return are expanded; scalar
+    # temporaries have already been executed symbolically above
+    ctor_defs = {k2: v2 for k2, v2 in single_assignment_locals(g.node).items() if isinstance(v2, ast.Call) and call_name(v2).split(".")[-1][:1].isupper()}
+    ret = expand_locals(ret, ctor_defs)
     if not (isinstance(ret, ast.Tuple) and len(ret.elts) == 2):
         raise AnalysisError(f"{g.qualname}: does not return a pair")
     dtg = g.params[2]
